@@ -214,9 +214,13 @@ class PackedPointRecord:
             dim_info = self.point_format.dimension_by_name(item)
             if dim_info.is_standard is False and dim_info.is_scaled:
                 assert dim_info.scales is not None and dim_info.offsets is not None
-                return ScaledArrayView(
-                    self.array[item], dim_info.scales, dim_info.offsets
-                )
+                scales, offsets = dim_info.scales, dim_info.offsets
+                if dim_info.num_elements == 1:
+                    # one element per point: its scale and offset are numbers, so
+                    # that the value of one point is read and assigned as a number
+                    scales = np.asarray(scales).reshape(-1)[0]
+                    offsets = np.asarray(offsets).reshape(-1)[0]
+                return ScaledArrayView(self.array[item], scales, offsets)
         except ValueError:
             pass
 
